@@ -75,8 +75,9 @@ def stepLine (st : JState) (line : String) : JState × String :=
               ({ st with specDead := true }, some ("components decoded from malformed bytes were leaked or dropped twice: " ++ r))
              else (st, none))
           else if r.trimAscii.toString == "panic" && WorldJudge.outOfContract lhs then
-            -- rejected out-of-contract call: nothing is specified about the state afterwards
-            ({ st with specDead := true }, none)
+            -- rejected out-of-contract call: nothing is specified about the state afterwards — except for
+            -- the array accessors, which refuse a repeated handle before touching anything
+            ((if lhs.startsWith "query " then st else { st with specDead := true }), none)
           else if WorldJudge.outOfContract lhs && !(lhs.startsWith "spawn_cb_at") && !(r.trimAscii.toString.startsWith "nosuch") then
             ({ st with specDead := true }, some "a bundle naming a component type twice must be rejected")
           else if r.trimAscii.toString == "panic" && !(lhs.startsWith "spawn_cb_at") then
